@@ -384,7 +384,7 @@ func (fr *frame) pos(p token.Pos) string {
 		return ""
 	}
 	pp := fr.u.eng.L.Prog.Fset.Position(p)
-	return fmt.Sprintf("%s:%d", strings.TrimPrefix(pp.Filename, "/repo/"), pp.Line)
+	return fmt.Sprintf("%s:%d", strings.TrimPrefix(pp.Filename, repoDir+"/"), pp.Line)
 }
 
 // describe produces a stable, line-free description of an SSA value for obligation names.
